@@ -5,4 +5,8 @@ CONSTANTS
   Sequential = FALSE
   Mode = "trace"
   EmitTR = FALSE
+  Api = "output"
+  WCaps = {3}
+  WriteAll = TRUE
+  SpawnWaits = FALSE
 CHECK_DEADLOCK FALSE
